@@ -18,75 +18,69 @@ namespace nmtools::index
     struct shape_dynamic_slice_t {};
     struct dynamic_slice_t {};
 
+    template <typename index_t>
+    struct slice_indices_t
+    {
+        index_t start;
+        index_t stop;
+        index_t step;
+    };
+
     /**
-     * @brief Compute range (number of dim at specific axis) ignoring the value of step
+     * @brief Normalize start, stop, step of a slice for an axis of length si,
+     * following python's slice(start,stop,step).indices(si):
+     * None takes the default for the sign of step, negative bounds count from the end,
+     * out-of-range bounds are clamped.
      * 
-     * @tparam si_t 
-     * @tparam start_t 
-     * @tparam stop_t 
-     * @tparam step_t 
      * @param si        shape at i-th axis
-     * @param start     start
-     * @param stop_     stop
-     * @param step_     step
-     * @return constexpr auto 
+     * @param start_    start (None or index)
+     * @param stop_     stop (None or index)
+     * @param step_     step (None or index)
+     * @return constexpr auto normalized start, stop, step (signed)
      */
     template <typename si_t, typename start_t, typename stop_t, typename step_t>
-    constexpr inline auto compute_range(si_t si, [[maybe_unused]] start_t start, stop_t stop_, [[maybe_unused]] step_t step_) // -> size_type
+    constexpr inline auto slice_indices(si_t si, [[maybe_unused]] start_t start_, [[maybe_unused]] stop_t stop_, [[maybe_unused]] step_t step_)
     {
-        // following numpy, stop is actually max(stop,shape_i)
-        [[maybe_unused]] auto stop = [&](){
-            if constexpr (is_none_v<stop_t>)
-                return si;
-            else {
-                using stop_type = meta::promote_index_t<stop_t,meta::remove_cvref_t<decltype(si)>>;
-                return static_cast<stop_type>(stop_) < static_cast<stop_type>(si) ?
-                    static_cast<stop_type>(stop_) : static_cast<stop_type>(si);
-            }
-        }();
+        using index_t = meta::make_signed_t<nm_size_t>;
+        const auto n = static_cast<index_t>(si);
+        auto step = index_t{1};
+        if constexpr (!is_none_v<step_t>) {
+            step = static_cast<index_t>(step_);
+        }
+        // clamp values: a walk backwards may stop before index 0 (-1) and starts at most at n-1
+        const auto lower = (step < 0 ? index_t{-1} : index_t{0});
+        const auto upper = (step < 0 ? n - 1 : n);
+        [[maybe_unused]] auto adjust = [&](auto bound){
+            auto b = static_cast<index_t>(bound);
+            b = (b < 0 ? b + n : b);
+            return (b < lower ? lower : (b > upper ? upper : b));
+        };
+        auto start = (step < 0 ? upper : lower);
+        auto stop  = (step < 0 ? lower : upper);
+        if constexpr (!is_none_v<start_t>) {
+            start = adjust(start_);
+        }
+        if constexpr (!is_none_v<stop_t>) {
+            stop = adjust(stop_);
+        }
+        return slice_indices_t<index_t>{start,stop,step};
+    } // slice_indices
 
-        // workaround to ambiguous call to std abs, mostly because need to refactor avoiding
-        // gcc 8 internal compiler error :|
-        // gcc 8 no longer supported, maybe cleanup this code
-        [[maybe_unused]] auto abs_ = [](auto v) { return v < 0 ? -v : v; };
-        // both start and stop is none, simply returh shape for this axis
-        if constexpr (is_none_v<start_t> && is_none_v<stop_t>) {
-            return si;
-        }
-        // need start + 1 for such following case: 2::-?
-        // for such case, allowed indices should be (0,1,2) (range of 3) hence start + 1
-        else if constexpr (meta::is_index_v<start_t> && is_none_v<stop_t> && meta::is_index_v<step_t>) {
-            return (step_ < 0 && start >= 0) ? start + 1 : si - start;
-        }
-        else if constexpr (meta::is_index_v<start_t> && is_none_v<stop_t>) {
-            return si - start;
-        }
-        // start is none, a.k.a. zero
-        else if constexpr (is_none_v<start_t> && meta::is_index_v<stop_t>) {
-            return (stop_ < 0 ? (si + stop_) : stop);
-        }
-        else /* if constexpr (meta::is_index_v<start_t> && meta::is_index_v<stop_t>) */ {
-            // to make sure we have consistent return types
-            using result_t = meta::promote_index_t<start_t,stop_t>;
-            // note that here we use "stop" instead of "stop_",
-            // also note that stop is already normalized
-            if ((stop < 0) && (start < 0)) {
-                return static_cast<result_t>((si - abs_(stop)) - (si - abs_(start)));
-            } else if ((stop < 0) && (start >= 0)) {
-                // sample case
-                // a[0:-1,...] with shape(a) = (2,3,2)
-                return static_cast<result_t>((si - abs_(stop)) - start);
-            } else if ((stop >= 0) && (start < 0)) {
-                return static_cast<result_t>(stop - (si - abs_(start)));
-            } else /* if ((stop >= 0) && (start >= 0)) */ {
-                // the following should works for both negative and positive step
-                if ((result_t)stop > (result_t)start) {
-                    return static_cast<result_t>(stop - start);
-                } else {
-                    return static_cast<result_t>(start - stop);
-                }
-            }
-        }
+    /**
+     * @brief Compute range (number of dim at specific axis) ignoring the magnitude of step
+     * 
+     * @param si        shape at i-th axis
+     * @param start     start
+     * @param stop      stop
+     * @param step      step
+     * @return constexpr auto distance walked from (normalized) start to stop, zero when the slice is empty
+     */
+    template <typename si_t, typename start_t, typename stop_t, typename step_t>
+    constexpr inline auto compute_range(si_t si, start_t start, stop_t stop, step_t step)
+    {
+        const auto s = slice_indices(si,start,stop,step);
+        const auto range = (s.step < 0 ? s.start - s.stop : s.stop - s.start);
+        return static_cast<nm_size_t>(range < 0 ? 0 : range);
     }
 
     template <typename step_t>
@@ -102,180 +96,19 @@ namespace nmtools::index
         }
     }
 
+    /**
+     * @brief Compute the index on the original axis of the i_i-th sliced index: start + index * step
+     */
     template <typename indices_t, typename si_t, typename start_t, typename stop_t, typename step_t, typename i_i_t>
     constexpr inline auto compute_index(const indices_t& indices, si_t si, start_t start_, stop_t stop_, step_t step_, i_i_t i_i)
     {
-        using index_t [[maybe_unused]]  = meta::get_index_element_type_t<indices_t>;
-        using sindex_t [[maybe_unused]] = meta::make_signed_t<index_t>;
-        using result_t [[maybe_unused]] = meta::make_unsigned_t<index_t>;
-        [[maybe_unused]] auto start = start_; // just alias
-        // following numpy, stop is actually (stop,shape_i)
-        [[maybe_unused]] auto stop = [&](){
-            if constexpr (is_none_v<stop_t>)
-                return si;
-            // clip value, keep sign
-            else {
-                using common_t = meta::promote_index_t<stop_t,si_t>;
-                auto s = static_cast<common_t>(stop_) < static_cast<common_t>(si)
-                            ? static_cast<common_t>(stop_) : static_cast<common_t>(si);
-                        s = static_cast<common_t>(s) > static_cast<common_t>(-si)
-                            ? static_cast<common_t>(s) : static_cast<common_t>(-si);
-                return s;
-            }
-        }();
-        // alias
-        [[maybe_unused]] auto step = step_;
-        // (1) simplest case: all is none
-        if constexpr (is_none_v<start_t> && is_none_v<stop_t> && is_none_v<step_t>) {
-            // example case:
-            // a[:]
-            auto index = at(indices,i_i);
-            return (result_t)index;
-        }
-        // (2) only start is integer
-        else if constexpr (meta::is_index_v<start_t> && is_none_v<stop_t> && is_none_v<step_t>) {
-            // example case:
-            // a[0::]
-            // a[-1::]
-            auto index = (start >= 0 ? start : stop - start) + at(indices,i_i);
-            return (result_t)index;
-            // return {start >= 0 ? start : stop - start, 1};
-        }
-        // (3) start and stop is integer, can be positive or negative
-        else if constexpr (meta::is_index_v<start_t> && meta::is_index_v<stop_t> && is_none_v<step_t>) {
-            // example case:
-            // a[0:2:]
-            // a[-2:3:]
-            // a[0:-1:]
-            // a[-2:-1:]
-            auto s = index_t{0};
-            if (start >= 0 && stop > 0)
-                s = start;
-            else if (start < 0 && stop > 0)
-                s = stop + start;
-            else if (start >= 0 && stop < 0)
-                s = start;
-            else /* if (start < 0 && stop < 0) */
-                s = si + start;
-            auto index = s + at(indices,i_i);
-            return (result_t)index;
-        }
-        // (4) all three is integer, can be positive or negative
-        else if constexpr (meta::is_index_v<start_t> && meta::is_index_v<stop_t> && meta::is_index_v<step_t>) {
-            auto _start = index_t{0};
-            auto _step  = index_t{0};
-            // step is negative:
-            if /**/ (start >= 0 && stop >= 0 && step < 0) {
-                if (stop > 0) {
-                    _start = stop - 1;
-                    _step  = step;
-                } else {
-                    _start = start;
-                    _step  = step;
-                }
-                // return {stop - 1, step};
-            }
-            else if (start < 0 && stop > 0 && step < 0) {
-                _start = stop + start;
-                _step  = step;
-                // return {stop+start, step};
-            } else if (start >= 0 && stop < 0 && step < 0) {
-                _start = start;
-                _step  = step;
-                // return {start, step};
-            } else if (start < 0 && stop < 0 && step < 0) {
-                _start = si + start - 1;
-                _step  = step;
-                // return {si+start-1, step};
-            }
-            // step is positive:
-            else if (start >= 0 && stop > 0 && step > 0) {
-                _start = start;
-                _step  = step;
-                // return {start, step};
-            } else if (start < 0 && stop > 0 && step > 0) {
-                _start = stop + start;
-                _step  = step;
-                // return {stop+start, step};
-            } else if (start >= 0 && stop < 0 && step > 0) {
-                _start = start;
-                _step  = step;
-                // return {start, step};
-            } else /* if (start < 0 && stop < 0 && step > 0) */ {
-                _start = si + start;
-                _step  = step;
-                // return {si+start, step};
-            }
-            auto index = _start + at(indices,i_i) * _step;
-            return (result_t)index;
-        } else if constexpr (is_none_v<start_t> && meta::is_index_v<stop_t> && is_none_v<step_t>) {
-            auto index = at(indices,i_i);
-            return (result_t)index;
-            // return {0,1};
-        } else if constexpr (is_none_v<start_t> && meta::is_index_v<stop_t> && meta::is_index_v<step_t>) {
-            auto _start = index_t{0};
-            auto _step  = index_t{0};
-            if (stop > 0 && step > 0) {
-                _start = 0;
-                _step  = step;
-                // return {0,step};
-            } else if (stop > 0 && step < 0) {
-                _start = si;
-                _step  = step;
-                // return {si,step};
-            } else if (stop < 0 && step > 0) {
-                _start = 0;
-                _step  = step;
-                // return {0,step};
-            } else /* if (stop > 0 && step > 0) */ {
-                _start = 0;
-                _step  = step;
-                // return {0,step};
-            }
-            auto index = _start + at(indices,i_i) * _step;
-            return (result_t)index;
-        }
-        else if constexpr (is_none_v<start_t> && is_none_v<stop_t> && meta::is_index_v<step_t>) {
-            // example case:
-            // a[::-1]
-            auto _start = sindex_t{0};
-            auto _step  = sindex_t{0};
-            if (step < 0) {
-                _start = si - 1;
-                _step  = step;
-                // return {si-1,step};
-            } else {
-                _start = 0;
-                _step  = step;
-                // return {0,step};
-            }
-            auto index = _start + at(indices,i_i) * _step;
-            return (result_t)index;
-        }
-        else /* if constexpr (meta::is_index_v<start_t> && is_none_v<stop_t> && meta::is_index_v<step_t>) */ {
-            auto _start = index_t{0};
-            auto _step  = index_t{0};
-            if (start >= 0 && step > 0) {
-                _start = start;
-                _step  = step;
-                // return {start, step};
-            } else if (start >= 0 && step < 0) {
-                _start = start;
-                _step  = step;
-                // return {start, step};
-            } else if (start < 0 && step > 0) {
-                _start = si + start;
-                _step  = step;
-                // return {si+start,step};
-            } else /* if (start < 0 && step < 0) */ {
-                _start = start;
-                _step  = step;
-                // return {start, step};
-            }
-            auto index = _start + at(indices,i_i) * _step;
-            return (result_t)index;
-        }
-    };
+        using index_t  = meta::get_index_element_type_t<indices_t>;
+        using result_t = meta::make_unsigned_t<index_t>;
+        const auto s = slice_indices(si,start_,stop_,step_);
+        using sindex_t = decltype(s.start);
+        auto index = s.start + static_cast<sindex_t>(at(indices,i_i)) * s.step;
+        return (result_t)index;
+    }
 
     /**
      * @brief Either-aware type check for index type
